@@ -25,10 +25,13 @@ Open Scope Z_scope.
 (* state = (tag, k, pending), as Decomp.toy_state.
    tag 1 : lagging copy (Decomp.toy_dstep): honours max_length, retains input
    tag 2 : expander: every input byte k times; IGNORES max_length
-           (DeflateDecompressor/ZstdDecompressor/BrotliDecompressor shape)
+           (Deflate64Decompressor shape; Deflate/Zstd/Brotli before their repair)
    tag 3 : expander that honours max_length: expands only as many whole input
            bytes as fit into max_length and keeps the rest of its INPUT inside
-           (lzma/bz2 shape: bounded output per call, unconsumed input retained)
+           (lzma/bz2/zstd/deflate shape: bounded output per call, unconsumed input retained)
+   tag 4 : as tag 3, but rounds UP to whole input bytes: may exceed max_length by
+           up to k-1 bytes (BrotliDecompressor with output_buffer_limit: the limit
+           is honoured up to one internal output block)
    other : copy, ignores max_length (CopyDecompressor/BCJ shape) *)
 Fixpoint rep_each (k : nat) (l : bytes) : bytes :=
   match l with [] => [] | x :: t => repeatZ x k ++ rep_each k t end.
@@ -42,13 +45,20 @@ Definition mtoy_dstep (s : toy_state) (data : bytes) (ml : Z) : toy_state * byte
     let n := if (ml <? 0) || (k <=? 0) then length avail
              else Nat.min (length avail) (Z.to_nat (ml / k)) in
     ((tag, k, skipn n avail), rep_each (Z.to_nat k) (firstn n avail))
+  else if tag =? 4 then
+    let avail := pend ++ data in
+    let n := if (ml <? 0) || (k <=? 0) then length avail
+             else Nat.min (length avail) (Z.to_nat ((ml + k - 1) / k)) in
+    ((tag, k, skipn n avail), rep_each (Z.to_nat k) (firstn n avail))
   else (s, data).
 
 Definition mtoy_held (s : toy_state) : Z := zlen (snd s).
 (* which toy states meet which contract (Prop; not extracted) *)
 Definition mtoy_honest (s : toy_state) : Prop := fst (fst s) = 1 \/ fst (fst s) = 3.
 Definition mtoy_tame (K : Z) (s : toy_state) : Prop :=
-  fst (fst s) <> 1 /\ fst (fst s) <> 3 /\ snd (fst s) <= K.
+  fst (fst s) <> 1 /\ fst (fst s) <> 3 /\ fst (fst s) <> 4 /\ snd (fst s) <= K.
+(* honours max_length up to K bytes *)
+Definition mtoy_slack (K : Z) (s : toy_state) : Prop := fst (fst s) = 4 /\ snd (fst s) <= K + 1.
 
 Section Acct.
   Variable stage_st : Type.
@@ -611,6 +621,111 @@ Section AcctProofs.
     Qed.
   End Honour.
 
+  (* ==== 1b. the last stage honours max_length up to c bytes ============== *)
+  (* (brotli's output_buffer_limit stops at the end of an internal output block).  Every decoder is of this kind
+     for SOME c -- its largest overshoot -- so this is also the bound the harness checks on all real chains. *)
+  Section Slack.
+    Variable nearly : stage_st -> Prop.
+    Variable c : Z.
+    Hypothesis c_nonneg : 0 <= c.
+    Hypothesis nearly_step : forall s d ml, nearly s -> nearly (fst (dstep s d ml)).
+    Hypothesis honours_slack : forall s d ml,
+        nearly s -> 0 <= ml -> zlen (snd (dstep s d ml)) <= ml + c.
+
+    Lemma chain_run_out_le_slack (ss : list stage_st) :
+      last_ok nearly ss ->
+      forall up us data ml ss' up' out,
+        0 <= ml ->
+        chain_run dstep ss up us data ml = Ok (ss', up', out) ->
+        zlen out <= ml + c /\ last_ok nearly ss'.
+    Proof.
+      induction ss as [|s ss IH]; intros Hok up us data ml ss' up' out Hml H; [destruct Hok|].
+      simpl in H.
+      destruct up as [|u up]; [discriminate|]. destruct us as [|z us]; [discriminate|].
+      destruct (u <? z).
+      - pose proof (honours_slack s data ml) as Hh. pose proof (nearly_step s data ml) as Hs.
+        destruct (dstep s data ml) as [s1 o]. simpl in Hh, Hs.
+        destruct (chain_run dstep ss up us o ml) as [[[ss2 up2] d]|e] eqn:E;
+          simpl in H; [|discriminate].
+        injection H as <- _ <-.
+        destruct ss as [|s2 ss].
+        + simpl in E. injection E as <- _ <-. simpl in Hok. simpl.
+          split; [apply Hh; assumption|apply Hs; exact Hok].
+        + destruct (IH Hok _ _ _ _ _ _ _ Hml E) as (Hle & Hok2).
+          split; [exact Hle|].
+          pose proof (chain_run_length _ dstep _ _ _ _ _ _ _ _ E) as (Hl & _).
+          destruct ss2 as [|a b]; [discriminate|]. exact Hok2.
+      - destruct (zlen data =? 0); [|discriminate].
+        destruct (chain_run dstep ss up us [] ml) as [[[ss2 up2] d]|e] eqn:E;
+          simpl in H; [|discriminate].
+        injection H as <- _ <-.
+        destruct ss as [|s2 ss].
+        + simpl in E. injection E as <- _ <-. rewrite zlen_nil. split; [lia|exact Hok].
+        + destruct (IH Hok _ _ _ _ _ _ _ Hml E) as (Hle & Hok2).
+          split; [exact Hle|].
+          pose proof (chain_run_length _ dstep _ _ _ _ _ _ _ _ E) as (Hl & _).
+          destruct ss2 as [|a b]; [discriminate|]. exact Hok2.
+    Qed.
+
+    (* with every max_length of the caller at most M: _buf never exceeds M + c and the bytes managed during a
+       call stay within 4*M + 3*c + block_size, whatever the member size and the expansion ratio *)
+    Theorem live_bytes_bounded_slack (M : Z) (st st' : dst) (ml : Z) (rd : nat) (out : bytes) :
+      buf_inv st -> last_ok nearly (stages st) -> 0 <= ml <= M ->
+      zlen (buf st) <= M + c ->
+      decompress dstep st ml rd = Ok (st', out) ->
+      buf_inv st' /\ last_ok nearly (stages st') /\
+      zlen out <= ml /\ tmp_len st st' out <= ml + c /\
+      zlen (buf st') <= M + c /\
+      managed st st' out <= 4 * M + 3 * c + Z.max 0 (block_size st) /\
+      block_size st' = block_size st.
+    Proof.
+      intros Hinv Hne (Hml & HmlM) HbM H.
+      destruct (decompress_spec_ml st st' ml rd out Hinv H)
+        as (data & tmp & Hcase & Hcons & Hdl & Hbs & His & Hinv' & Hflow & Hlen).
+      specialize (Hlen Hml).
+      assert (Hrd : read_len st st' <= Z.max 0 (block_size st)) by (unfold read_len; lia).
+      unfold managed. rewrite (tmp_len_eq st st' out tmp Hinv Hinv' Hflow).
+      pose proof (zlen_nonneg (buf st)) as Hb0. pose proof (zlen_nonneg tmp) as Ht0.
+      destruct Hinv as (Hpos & _).
+      unfold buf_case in Hcase. cbv zeta in Hcase.
+      destruct Hcase as [(Hr & Hb & Hp & Hd & Ht & Hs)|[(Hr & Hb & Hp & Hc)|(Hr1 & Hr2 & Hp & Hb & Hc)]].
+      - subst tmp. rewrite Hb, Hs, zlen_nil.
+        split; [exact Hinv'|]. split; [exact Hne|]. repeat split; lia.
+      - destruct (chain_run_out_le_slack _ Hne _ _ _ _ _ _ _ Hml Hc) as (Ht & Hok').
+        rewrite Hb, zlen_nil.
+        split; [exact Hinv'|]. split; [exact Hok'|]. repeat split; lia.
+      - destruct (chain_run_out_le_slack _ Hne _ _ _ _ _ _ _ Hml Hc) as (Ht & Hok').
+        split; [exact Hinv'|]. split; [exact Hok'|]. repeat split; lia.
+    Qed.
+
+    (* Worker.decompress: every max_length is min(remaining, max_block) <= max_block *)
+    Theorem worker_live_bounded_slack (fuel : nat) :
+      forall (st st' : dst) (size mb : Z) (sched : list nat) (out : bytes) (pk : Z),
+        buf_inv st -> last_ok nearly (stages st) -> 0 <= mb -> zlen (buf st) <= mb + c ->
+        worker_peak dstep fuel st size mb sched = Ok (st', out, pk) ->
+        pk <= 4 * mb + 3 * c + Z.max 0 (block_size st) /\ zlen (buf st') <= mb + c /\
+        block_size st' = block_size st.
+    Proof.
+      induction fuel as [|fuel IH]; intros st st' size mb sched out pk Hinv Hne Hmb HbM H;
+        simpl in H; destruct (size >? 0) eqn:Es;
+        try discriminate;
+        try (injection H as <- _ <-; split; [lia|split; [exact HbM|reflexivity]]).
+      apply Z.gtb_lt in Es.
+      destruct (decompress dstep st (Z.min size mb) (sched_hd st sched)) as [[st1 tmp]|e] eqn:Hd;
+        simpl in H; [|discriminate].
+      assert (Hml : 0 <= Z.min size mb <= mb) by lia.
+      destruct (live_bytes_bounded_slack mb st st1 _ _ tmp Hinv Hne Hml HbM Hd)
+        as (Hinv1 & Hne1 & _ & _ & Hb1 & Hm & Hbs).
+      destruct ((if zlen tmp >? 0 then size - zlen tmp else size) <=? 0).
+      - injection H as <- _ <-. split; [lia|split; assumption].
+      - destruct (worker_peak dstep fuel st1 _ mb (tl sched)) as [[[st2 o2] pk2]|e] eqn:Hw;
+          simpl in H; [|discriminate].
+        injection H as <- _ <-.
+        destruct (IH _ _ _ _ _ _ _ Hinv1 Hne1 Hmb Hb1 Hw) as (Hpk & Hb2 & Hbs2).
+        rewrite Hbs in Hpk. split; [lia|]. split; [exact Hb2|congruence].
+    Qed.
+  End Slack.
+
   (* worker_peak is Worker.decompress (Decomp.worker_decompress) plus a counter *)
   Lemma worker_peak_erase (fuel : nat) :
     forall (st : dst) (size mb : Z) (sched : list nat),
@@ -871,7 +986,8 @@ Proof.
   destruct s as [[tag k] p]. unfold mtoy_dstep, toy_dstep.
   destruct (tag =? 1); [split; reflexivity|].
   destruct (tag =? 2); [split; reflexivity|].
-  destruct (tag =? 3); split; reflexivity.
+  destruct (tag =? 3); [split; reflexivity|].
+  destruct (tag =? 4); split; reflexivity.
 Qed.
 
 Lemma mtoy_honest_step (s : toy_state) (c : bytes) (ml : Z) :
@@ -906,11 +1022,12 @@ Lemma mtoy_expansion (K : Z) (s : toy_state) (c : bytes) (ml : Z) :
   mtoy_tame K s -> zlen (snd (mtoy_dstep s c ml)) <= Z.max 1 K * zlen c + 0.
 Proof.
   destruct s as [[tag k] p]. unfold mtoy_tame, mtoy_dstep. simpl fst. simpl snd.
-  intros (H1 & H3 & HK). pose proof (zlen_nonneg c) as Hc.
+  intros (H1 & H3 & H4 & HK). pose proof (zlen_nonneg c) as Hc.
   destruct (tag =? 1) eqn:E1; [apply Z.eqb_eq in E1; lia|].
   destruct (tag =? 2) eqn:E2.
   - simpl snd. rewrite zlen_rep_each. nia.
-  - destruct (tag =? 3) eqn:E3; [apply Z.eqb_eq in E3; lia|]. simpl snd. nia.
+  - destruct (tag =? 3) eqn:E3; [apply Z.eqb_eq in E3; lia|].
+    destruct (tag =? 4) eqn:E4; [apply Z.eqb_eq in E4; lia|]. simpl snd. nia.
 Qed.
 
 Lemma mtoy_held_step (s : toy_state) (c : bytes) (ml : Z) :
@@ -922,7 +1039,30 @@ Proof.
   { intros n. unfold zlen. rewrite skipn_length, app_length. lia. }
   destruct (tag =? 1); [simpl; apply Hsk|].
   destruct (tag =? 2); [simpl; lia|].
-  destruct (tag =? 3); [simpl; apply Hsk|simpl; lia].
+  destruct (tag =? 3); [simpl; apply Hsk|].
+  destruct (tag =? 4); [simpl; apply Hsk|simpl; lia].
+Qed.
+
+Lemma mtoy_slack_step (K : Z) (s : toy_state) (c : bytes) (ml : Z) :
+  mtoy_slack K s -> mtoy_slack K (fst (mtoy_dstep s c ml)).
+Proof. unfold mtoy_slack. destruct (mtoy_tag s c ml) as (-> & ->). tauto. Qed.
+
+Lemma mtoy_honours_slack (K : Z) (s : toy_state) (c : bytes) (ml : Z) :
+  mtoy_slack K s -> 0 <= ml -> zlen (snd (mtoy_dstep s c ml)) <= ml + Z.max 0 K.
+Proof.
+  destruct s as [[tag k] p]. unfold mtoy_slack, mtoy_dstep. simpl fst. simpl snd.
+  intros (-> & HK) Hml.
+  change (4 =? 1) with false. change (4 =? 2) with false. change (4 =? 3) with false.
+  change (4 =? 4) with true. cbv iota. simpl snd. rewrite zlen_rep_each.
+  destruct (ml <? 0) eqn:E; [apply Z.ltb_lt in E; lia|]. simpl orb.
+  destruct (k <=? 0) eqn:Ek.
+  - apply Z.leb_le in Ek. replace (Z.to_nat k) with 0%nat by lia. lia.
+  - apply Z.leb_gt in Ek.
+    set (q := (ml + k - 1) / k).
+    pose proof (zlen_firstn_le (Nat.min (length (p ++ c)) (Z.to_nat q)) (p ++ c)) as Hf.
+    pose proof (zlen_nonneg (firstn (Nat.min (length (p ++ c)) (Z.to_nat q)) (p ++ c))) as H0.
+    pose proof (Z.mul_div_le (ml + k - 1) k ltac:(lia)) as Hd. fold q in Hd.
+    assert (0 <= q) by (apply Z.div_pos; lia). nia.
 Qed.
 
 (* instances of the main theorems for the toy stages *)
@@ -970,6 +1110,33 @@ Example first_stage_held_applies :
                    [(4, 9%nat); (4, 9%nat)] = Ok (st', outs) /\
     sum_held mtoy_held (stages st') = 6 /\ consumed st' = 8.
 Proof. eexists. eexists. split; [vm_compute; reflexivity|]. split; reflexivity. Qed.
+
+
+Theorem toy_live_bytes_bounded_slack (K M : Z) (st st' : dstate toy_state) (ml : Z) (rd : nat) (out : bytes) :
+  buf_inv st -> last_ok (mtoy_slack K) (stages st) -> 0 <= ml <= M ->
+  zlen (buf st) <= M + Z.max 0 K ->
+  decompress mtoy_dstep st ml rd = Ok (st', out) ->
+  buf_inv st' /\ last_ok (mtoy_slack K) (stages st') /\
+  zlen out <= ml /\ tmp_len st st' out <= ml + Z.max 0 K /\
+  zlen (buf st') <= M + Z.max 0 K /\
+  managed st st' out <= 4 * M + 3 * Z.max 0 K + Z.max 0 (block_size st) /\
+  block_size st' = block_size st.
+Proof.
+  exact (live_bytes_bounded_slack toy_state mtoy_dstep (mtoy_slack K) (Z.max 0 K) ltac:(lia)
+           (mtoy_slack_step K) (mtoy_honours_slack K) M st st' ml rd out).
+Qed.
+
+(* ratio 7, max_length 10: the stage returns 14 bytes, 4 stay in _buf; next call is served from them *)
+Example live_bytes_bounded_slack_applies :
+  let st := init_state [toy_st 0 0 []; toy_st 4 7 []] [100; 700] 9 4 [1; 2; 3; 4; 5; 6; 7; 8; 9] in
+  buf_inv st /\ last_ok (mtoy_slack 6) (stages st) /\
+  exists st' outs, decompress_seq mtoy_dstep st [(10, 9%nat); (3, 9%nat)] = Ok (st', outs) /\
+                   zlen outs = 13 /\ zlen (buf st') = 4 /\ pos st' = 3.
+Proof.
+  cbv zeta. split; [split; [vm_compute; split; discriminate|reflexivity]|].
+  split; [split; [reflexivity|simpl; lia]|].
+  eexists. eexists. split; [vm_compute; reflexivity|]. repeat split.
+Qed.
 
 (* ---- the bound really depends on the ratio ------------------------------ *)
 (* one call on a fresh decompressor whose chain returns more than max_length *)
@@ -1228,6 +1395,9 @@ Proof. vm_compute. reflexivity. Qed.
 Print Assumptions clean_if_tmp_fits.
 Print Assumptions live_bytes_bounded.
 Print Assumptions worker_live_bounded.
+Print Assumptions live_bytes_bounded_slack.
+Print Assumptions worker_live_bounded_slack.
+Print Assumptions toy_live_bytes_bounded_slack.
 Print Assumptions clean_reachable.
 Print Assumptions carry_bounded_general.
 Print Assumptions carry_bounded_seq.
